@@ -42,6 +42,10 @@ pub fn types() -> Vec<Ty> {
         let (s, o) = SCALES[i % 4];
         t.push(Ty::Scaled { min: a, max: b, scale: s, offset: o });
     }
+    // offsets and scales whose sign or last digit is easily lost
+    t.push(Ty::Scaled { min: -5, max: 5, scale: 0.5, offset: -0.0 });
+    t.push(Ty::Scaled { min: 0, max: 9, scale: 0.1 + 0.2, offset: 1.0 / 3.0 });
+    t.push(Ty::Scaled { min: 0, max: 9, scale: 5e-324, offset: -1.7976931348623157e308 });
     t
 }
 
@@ -58,6 +62,10 @@ pub fn types_small() -> Vec<Ty> {
         Ty::Int { min: 0, max: (1i64 << 33) - 1 },
         Ty::Int { min: i64::MIN, max: i64::MAX },
         Ty::Scaled { min: 7, max: 7, scale: 2.1, offset: 100.2 },
+        // offsets and scales whose sign or last digit is easily lost
+        Ty::Scaled { min: -5, max: 5, scale: 0.5, offset: -0.0 },
+        Ty::Scaled { min: 0, max: 9, scale: 0.1 + 0.2, offset: 1.0 / 3.0 },
+        Ty::Scaled { min: 0, max: 9, scale: 5e-324, offset: -1.7976931348623157e308 },
     ]
 }
 
